@@ -7,8 +7,6 @@ Local Open Scope N_scope.
 Ltac Zify.zify_post_hook ::= Z.div_mod_to_equations.
 Ltac splits := repeat match goal with |- _ /\ _ => split end.
 
-Definition key_at (b : ablock) (j : nat) : bytes := pe_key (entry_at b j).
-Definition off_at (b : ablock) (j : nat) : N := pe_off (entry_at b j).
 
 (* a well-formed non-empty block, with [ridx] = the entry index of each restart point *)
 Record wfb (b : ablock) (ridx : list nat) : Prop := {
